@@ -22,7 +22,9 @@ RULE = ("document = container tree; packet = header + steering fields + one byte
         "(six relations raw/calibrated on a 2-bit integer, label eq/ne on a 2-bit enumeration, a 2-comparison list, a "
         "boolean expression, a header-field comparison, none) x abstract flags x root abstract x ALL 16 steering "
         "assignments; trees with 3-4 containers (24 shapes) sampled; plus seeded random deeper documents with nested "
-        "and shared containers, and documents whose APID parameter is not called PKT_APID. distinct_nontrivial = "
+        "and shared containers (the same nested container twice in one entry list, in a diamond, shared by two path containers), "
+        "documents whose APID parameter is not called PKT_APID, and root-override histories (decode from another container "
+        "through root_container_name, then again from the definition's own root). distinct_nontrivial = "
         "distinct (tree shape, criteria ids, abstract flags, outcome class at each assignment) signatures; a single "
         "concrete root without children is the trivial tree and is excluded.")
 ASSUMPTIONS = ["a parameter appears at most once on a path (a dict cannot represent it twice)",
